@@ -85,4 +85,46 @@ theorem handleStream_tie (addOpen : Opaque "service.ServiceMetrics" → Opaque "
   unfold Code.ssService.HandleStream
   by_cases h : s.metrics = ⟨0⟩ <;> simp [h]
 
+/-! ### streamHandler.Handle (service/tcp.go): the frame around handleConnection -/
+
+def measureEff (conn : Conn) : Eff := { name := "call MeasureConn", args := [], vals := [[Atom.tok conn.val], [], []] }
+/-- `AddClosed(status, proxyMetrics, duration)`: the byte counters are written by the counting connection behind the
+    translation's back (pointers into them were handed to MeasureConn), so their value is not part of the log (`[]`) -/
+def closedEff (cm : Opaque "service.TCPConnMetrics") (status : String) (duration : Int) : Eff :=
+  { name := "TCPConnMetrics.AddClosed", args := [], vals := [[Atom.tok cm.val], [Atom.str status], [], [Atom.int duration]] }
+def closeEff (mc : Conn) : Eff := { name := "Conn.Close", args := [], vals := [[Atom.tok mc.val]] }
+/-- the status reported with the close: OK exactly when handleConnection reported no error -/
+def statusOf : Option String → String
+  | none => "OK"
+  | some st => st
+
+/-- **streamHandler.Handle**: nil metrics are replaced by the no-op object; the client connection is wrapped by the
+    counting connection; handleConnection runs on the wrapped connection (its whole log appears in place); then exactly one
+    `AddClosed` with the status of its result, and only then the wrapped connection is closed. -/
+theorem handle_tie
+    (ctxDeadline : Opaque "context.Context" → Int × Bool) (measure : Conn → Conn) (since : Int → Int)
+    (dial : Opaque "transport.FuncStreamDialer")
+    (authenticate : Conn → String × Conn × Option String) (getProxyRequest : Conn → String × Option String)
+    (disc : Opaque "io.Writer") (noop : Opaque "service.TCPConnMetrics") (now : Int)
+    (proxyConnection : Opaque "slog.Logger" → Opaque "context.Context" → Opaque "transport.FuncStreamDialer" → String → Conn → Conn → Option String)
+    (h : Code.streamHandler) (ctx : Opaque "context.Context") (conn : Conn) (cm : Opaque "service.TCPConnMetrics") :
+    Code.streamHandler.Handle ctxDeadline measure since dial authenticate getProxyRequest disc noop now proxyConnection h ctx conn cm =
+      (let cm' := if cm = ⟨0⟩ then noop else cm
+       let mc := measure conn
+       let o := outcome (ctxDeadline ctx) now h.readTimeout mc cm' disc (authenticate mc) getProxyRequest
+                  (fun addr inner => proxyConnection h.logger ctx dial addr inner mc)
+                  (fun addr inner => callRelay h.logger ctx dial addr inner mc)
+       some (h, [measureEff conn] ++ o.2 ++ [closedEff cm' (statusOf o.1) (since now), closeEff mc])) := by
+  unfold Code.streamHandler.Handle
+  simp only [handleConnection_tie]
+  by_cases hc : cm = ⟨0⟩
+  · cases ho : (outcome (ctxDeadline ctx) now h.readTimeout (measure conn) noop disc (authenticate (measure conn)) getProxyRequest
+        (fun addr inner => proxyConnection h.logger ctx dial addr inner (measure conn))
+        (fun addr inner => callRelay h.logger ctx dial addr inner (measure conn))).1 <;>
+      simp [hc, ho, measureEff, closedEff, closeEff, statusOf]
+  · cases ho : (outcome (ctxDeadline ctx) now h.readTimeout (measure conn) cm disc (authenticate (measure conn)) getProxyRequest
+        (fun addr inner => proxyConnection h.logger ctx dial addr inner (measure conn))
+        (fun addr inner => callRelay h.logger ctx dial addr inner (measure conn))).1 <;>
+      simp [hc, ho, measureEff, closedEff, closeEff, statusOf]
+
 end OutlineModel.Tie.Handle
